@@ -21,7 +21,7 @@ RULE = ('Hypothesis strategy over simnet cases: publisher (source or relay) with
         'stalled or dead while >= 5 frames flowed to a synchronized sink. Distinct = distinct case value.')
 ASSUMPTIONS = ['socket model of DESIGN.md section 3.3; PUB high-water-mark drops towards a stalled listener are not modelled (the synchronized stream does not depend on them)',
                'precondition: synchronized consumers are listed in the publisher\'s outputs_required (the docs warn that a publisher with only ephemeral listeners starts publishing)']
-BUDGET = {'quick': 45, 'thorough': 900}
+BUDGET = {'quick': 70, 'thorough': 900}
 SLACK_MS = 450
 
 _S = {}
@@ -212,4 +212,88 @@ def run_case(case):
                                                      't_without_ms': round(max(v[-1]['t'] for v in b['calls'].values() if v) / 1e6) if nsync else None})
 
 
-PARTS = [Part('differential', run_case, strategy=case_strategy, examples={'quick': 200, 'thorough': 4000})]
+# ---- part 2: a receiver that has an ephemeral source *and* something else -------------------------------------------------------
+# (d) for "an ephemeral branch rejoined as an ephemeral source" and for a receiver with two ephemeral sources: whatever the other
+# source does, the topics of one upstream message reach process() together or not at all. Here the ephemeral publisher emits 2-3
+# topics per message and the links have per-message delay variation, so a set can be half way in when the other source is ready.
+
+@st.composite
+def mixed_strategy(draw, tier):
+    n = draw(st.integers(8, 14 if tier == 'quick' else 30))
+    xtopics = draw(st.sampled_from([['e0', 'e1'], ['e0', 'e1', 'e2'], ['e0', '_h', 'e1']]))
+    form = draw(st.sampled_from(['all', 'list', 'list', 'star']))
+    sub = {'form': form} if form != 'list' else {'form': 'list', 'pairs': [[t, t] for t in draw(st.lists(st.sampled_from(xtopics), min_size=2, max_size=3, unique=True))]}
+    return {
+        'n': n, 'xtopics': xtopics, 'sub': sub, 'mark': draw(st.sampled_from(['?', '?', '??'])),
+        'other': draw(st.sampled_from(['sync', 'sync', 'eph'])),       # what else the receiver listens to
+        'xkind': draw(st.sampled_from(['src', 'rejoin'])),              # the ephemeral publisher: an independent source / an ephemeral branch of S
+        'src_work': draw(st.lists(scen.src_work_ms, min_size=1, max_size=2)),
+        'x_work': draw(st.lists(scen.src_work_ms, min_size=1, max_size=3)),
+        'k_work': draw(st.lists(scen.work_ms, min_size=1, max_size=2)),
+        'net': {**draw(scen.net_strategy(max_drops=0)), 'keyed': draw(st.booleans())},
+        'starts': draw(st.lists(st.sampled_from([0, 0, 0, 40, 300]), min_size=3, max_size=3)),
+        'ipc': draw(st.booleans()),
+    }
+
+
+def run_mixed(case):
+    harness = _S['harness']
+    st_ = case['starts']
+    nodes = [{'id': 'S', 'beh': {'kind': 'src', 'n': case['n'], 'work': case['src_work']}, 'required': ['K'] if case['other'] == 'sync' else [], 'start': st_[0]}]
+    if case['xkind'] == 'src':
+        nodes.append({'id': 'X', 'beh': {'kind': 'src', 'n': case['n'] * 3, 'work': case['x_work'], 'topics': case['xtopics']}, 'start': st_[1]})
+    else:
+        nodes.append({'id': 'X', 'sources': ['S?'], 'beh': {'kind': 'xf', 'work': case['x_work'], 'topics': case['xtopics']}, 'start': st_[1]})
+    nodes.append({'id': 'K', 'sources': ['S' if case['other'] == 'sync' else 'S?', 'X' + case['mark'] + scen.sub_suffix(case['sub'])], 'nout': 0,
+                  'beh': {'kind': 'sink', 'work': case['k_work']}, 'start': st_[2]})
+    p = harness.Pipeline(nodes, net=case['net'], seed=9, ipc=case.get('ipc', False))
+    try:
+        p.start_all()
+
+        def done():
+            c = p.process_calls('K')
+            return bool(c) and any(pv and pv.get('origin') == 'S' and pv.get('seq') == case['n'] - 1 and 'main' == t for t, pv in c[-1]['in'].items()) \
+                and p.world.now > c[-1]['t'] + 300_000_000
+        p.run(20_000 + case['n'] * 600, stop=done)
+        calls, pubs = p.process_calls('K'), p.publishes()
+        raised = [(k, e) for k, e in p.ends.items() if e['how'] == 'raised']
+    finally:
+        p.finish()
+    classes = [f'net {case["net"]["cls"]}', f'other source {case["other"]}', f'ephemeral publisher {case["xkind"]}', f'sub {case["sub"]["form"]}', f'mark {case["mark"]}']
+    if raised:
+        return bad(f'filter {raised[0][0][0]} ended with {raised[0][1]["exc"]}', f'filter-raised:{raised[0][1].get("type")}', classes)
+    pubtopics, uid2pub = {}, {}
+    for r in pubs:
+        if r['kind'] == 'data' and r['node'] == 'X':
+            if r['topics'] is not None:
+                pubtopics.setdefault((r['inc'], r['mid']), set()).update(r['topics'])
+            if r['uid']:
+                uid2pub[r['uid']] = (r['inc'], r['mid'], r['topic'].strip('/'))
+    last, with_x, with_both, alone = None, 0, 0, 0
+    for rec in calls:
+        got = {t: uid2pub[pv['uid']] for t, pv in rec['in'].items() if pv and pv.get('uid') in uid2pub}
+        if not got:
+            continue
+        with_x += 1
+        if 'main' in rec['in']:
+            with_both += 1
+        else:
+            alone += 1
+        mids = {(g[0], g[1]) for g in got.values()}
+        if len(mids) > 1:
+            return bad(f'K got the ephemeral topics of different upstream messages in one set: {sorted(mids)}', 'mixed-receiver:ephemeral-mixed-set', classes)
+        inc, mid = next(iter(mids))
+        expect = scen.sub_model(case['sub'], pubtopics.get((inc, mid), set()))
+        if {g[2]: t for t, g in got.items()} != expect:
+            return bad(f'K (sources: {case["other"]} S and ephemeral X) got topics {sorted(got)} of X message {mid}; its subscription selects {sorted(expect.values())} - '
+                       f'one upstream message was handed over in pieces', 'mixed-receiver:ephemeral-partial-set', classes)
+        if last is not None and last[0] == inc and mid <= last[1]:
+            return bad(f'K got X message {mid} after message {last[1]}', 'mixed-receiver:ephemeral-out-of-order', classes)
+        last = (inc, mid)
+    if with_both: classes.append('ephemeral set delivered together with a synchronized frame')
+    if alone: classes.append('ephemeral set delivered alone')
+    return ok(with_x >= 3 and len(calls) >= 5, classes, {'sets': len(calls), 'with_ephemeral': with_x, 'together': with_both})
+
+
+PARTS = [Part('mixed_receiver', run_mixed, strategy=mixed_strategy, examples={'quick': 250, 'thorough': 5000}),
+         Part('differential', run_case, strategy=case_strategy, examples={'quick': 200, 'thorough': 4000})]
